@@ -46,6 +46,26 @@ func VH_C09_formats() {
 	vAssert("C09.list-query-ok", List(bytes.NewReader(refFile), bytes.NewReader(qFasta), qCSV) == nil)
 	vAssert("C09.list-target-ok", List(bytes.NewReader(refFile), bytes.NewReader(tFasta), tCSV) == nil)
 
+	// option set: by default --dist-all W+1; with OPTS=1 one of several --size-*/--no-fill/--dist-push/threshold/
+	// --ignore combinations (sizetotal, sizeup, sizedown, sizeside, sizesame, distall, distpush)
+	opt := [7]int{0, 0, 0, 0, 0, W + 1, 0}
+	thrPair, thrTarget, nofill := float32(0.1), 10000, false
+	var ignore []string
+	if vParam("OPTS") == 1 {
+		switch vChoice("options", 6) {
+		case 1:
+			opt = [7]int{2, 0, 0, 0, 0, 0, 0}
+		case 2:
+			opt = [7]int{0, 1, 1, 0, 1, 0, 0}
+			nofill = true
+		case 3:
+			opt = [7]int{0, 0, 0, 0, 0, 0, 1}
+		case 4:
+			thrPair, thrTarget = 0.5, 0
+		case 5:
+			ignore = []string{"t0"}
+		}
+	}
 	run := func(qtype, ttype string) (string, error) {
 		var qr, tr *bytes.Reader
 		if qtype == "csv" {
@@ -59,8 +79,8 @@ func VH_C09_formats() {
 			tr = bytes.NewReader(tFasta)
 		}
 		out := &vCapture{}
-		err := TopRanking(qr, tr, bytes.NewReader(refFile), out, table, qtype, ttype, nil,
-			0, 0, 0, 0, 0, W+1, 0, 0, 0, 0.1, 10000, false, 0)
+		err := TopRanking(qr, tr, bytes.NewReader(refFile), out, table, qtype, ttype, ignore,
+			opt[0], opt[1], opt[2], opt[3], opt[4], opt[5], 0, 0, 0, thrPair, thrTarget, nofill, opt[6])
 		return string(out.buf), err
 	}
 	ff, e1 := run("fasta", "fasta")
